@@ -178,6 +178,8 @@ type Exec struct {
 	Trace      *strings.Builder // when non-nil every step is described here
 	KeyLast    bool             // include the last-run thread in Key (needed when preemptions are bounded)
 	Cells      []*int           // shared cells (env.Shared) - part of the state
+	Watches    []Watcher        // evaluated by oracles on the terminal state
+	Final      map[string]bool  // results of the watches at the end of the execution
 }
 
 // X is the execution in progress (one per process at a time).
@@ -572,6 +574,10 @@ func Run(root func(), ch Chooser, cfg func(*Exec)) *Exec {
 		if !t.done && t.pending != nil {
 			t.AtEnd = t.pending.String()
 		}
+	}
+	x.Final = map[string]bool{}
+	for _, w := range x.Watches {
+		x.Final[w.Name] = w.F()
 	}
 	// teardown: unwind every thread that is still parked
 	x.teardown = true
